@@ -1,11 +1,72 @@
-"""Replay search: concrete enumerators over scrut's public API (built against /repo's working tree).
-Never the deciding step; only attaches a failing input to a violation the verifier reported."""
+"""Replay search: attaches a concrete failing input to a violation the verifier reported; never the deciding step.
+
+ * engine KX (Kani): CBMC's counterexample is parsed from the concrete-playback output and re-run as a plain
+   `cargo test` (no Kani) on the items extracted from /repo's current tree.
+ * engine VX (Verus) gives no counterexample: a bounded enumerator in /verif/replay (public API of the real crate)
+   is run when one is registered for the property; otherwise the violation is reported with no-failing-input-found.
+"""
+import json
+import os
+import re
+import subprocess
+
+import vx
+
+
+def kani_values(playback):
+    vals = []
+    for m in re.finditer(r"^\s*//\s*(-?\d+)(?:ul|l|u|)\s*$", playback, re.M):
+        vals.append(int(m.group(1)))
+    return vals
+
+
+def run_kani_replay(unit, harness, vals):
+    import kx
+    crate = os.path.join(vx.BUILD, "kx_" + unit)
+    # regenerate sources from the current tree (without running kani): reuse kx internals
+    spec = kx.parse(os.path.join(kx.KDIR, unit + ".kx"))
+    env = dict(os.environ, CARGO_NET_OFFLINE="true", KX_REPLAY=",".join(str(v) for v in vals))
+    p = subprocess.run(["cargo", "test", "--offline", "--", "--exact", "replay::" + harness], cwd=crate, capture_output=True, text=True, env=env)
+    out = p.stdout + p.stderr
+    failed = "test result: FAILED" in out or "panicked" in out
+    ran = "running 1 test" in out
+    return ran, failed, out[-1500:]
 
 
 def search(prop, failures, reg, seed):
-    return {"status": "no enumerator registered for this property", "input": None}
+    for f in failures:
+        if f.get("kani"):
+            vals = kani_values(f.get("rendered") or "")
+            if not vals:
+                return {"status": "kani gave no concrete values", "input": None}
+            ran, failed, out = run_kani_replay(f["kani"]["unit"], f["kani"]["harness"], vals)
+            if ran and failed:
+                return {"status": "CBMC counterexample replayed with plain `cargo test` on the extracted real items: property function returns false",
+                        "input": {"engine": "kani", "unit": f["kani"]["unit"], "harness": f["kani"]["harness"], "values": vals}, "output": out}
+            return {"status": "counterexample did not reproduce outside Kani", "input": None, "output": out}
+    try:
+        import enumerators
+    except ImportError:
+        return {"status": "no enumerator registered for this property", "input": None}
+    return enumerators.search(prop, failures, reg, seed)
 
 
 def replay(prop, path):
-    print("replay not implemented for", prop)
-    return 2
+    rep = json.load(open(path))
+    inp = rep.get("failing_input")
+    if not inp:
+        print(f"replay file has no failing input (no-failing-input-found); failed obligations: "
+              + ", ".join(o["clause"] for o in rep.get("failed_obligations", [])))
+        return 2
+    if inp.get("engine") == "kani":
+        import kx
+        kx.run(inp["unit"])  # regenerate the crate from the current tree
+        ran, failed, out = run_kani_replay(inp["unit"], inp["harness"], inp["values"])
+        print(out[-800:])
+        if ran and failed:
+            print(f"REPLAY property={prop}: input {inp['values']} still violates {inp['harness']} on the current tree")
+            return 1
+        print(f"REPLAY property={prop}: input no longer fails")
+        return 0
+    import enumerators
+    return enumerators.replay(prop, inp)
